@@ -24,11 +24,18 @@ theorem address_is_digest (fl : Flavour) (key : Option Bytes) (o : WriteOpts) (c
   exact ⟨fun hr => ((wpD_run h).2 sri hr).2.1 hs, fun hr => ((wpD_fault h plan 0).2 sri hr).2.1 hs⟩
 
 /-- The address depends on the data only: two chunkings of the same bytes, two keys, two
-flavours give the same integrity. -/
+flavours give the same integrity.  (A DEFINITIONAL fact about the model, by congruence: the
+computed integrity `Sri.compute` is a function of the algorithm and the concatenated bytes and has
+no key / flavour / chunking argument.  That the write PROGRAMS return exactly this value is
+`address_is_digest`.) -/
 theorem address_depends_on_data_only (a : Algo) (c1 c2 : List Bytes) (h : c1.flatten = c2.flatten) :
     Sri.compute cfg.H a c1.flatten = Sri.compute cfg.H a c2.flatten := by rw [h]
 
-/-- A successful write leaves its data's content path present. -/
+/-- A successful write leaves its data's content path present: the path EXISTS (`isSome` — some
+node is there, e.g. the regular file just renamed, or whatever an earlier publisher or `link_to`
+left).  That it can be READ BACK as the data needs the node to be a regular file holding it
+(`some (.file b)`): that is the hypothesis / conclusion of the end-to-end theorems
+(`rewrite_same_bytes` below, `C02`'s read-back theorems, `CacheRefine.cache_refines_map`). -/
 theorem content_present_after_write (fl : Flavour) (key : Option Bytes) (o : WriteOpts)
     (chunks : List Bytes) (fs : FS) (hv : ContentValid cfg cache fs) (sri : Integrity)
     (hr : (run env (writeStream cfg cache fl key o chunks) fs).1 = .ok sri) :
@@ -46,12 +53,80 @@ theorem same_address_same_digest (fs : FS) (hv : ContentValid cfg cache fs) (a :
     Bytes.hex (cfg.H a b) = Bytes.hex (cfg.H a data) :=
   (hv a _ b hl hf).symm
 
-/-- Publishing bytes that are already stored leaves the stored copy byte-identical. -/
+/-- Publishing bytes that are already stored leaves the stored copy byte-identical.  (A fact about
+the filesystem model's `del` / `put` only — the effect of the publishing `rename` spelled out —,
+not about a program; the program-level statement is `rewrite_same_bytes` below.) -/
 theorem republish_identical (fs : FS) (tmp : Path) (a : Algo) (data : Bytes)
     (hpresent : fs.get (addrPath cache a (Bytes.hex (cfg.H a data))) = some (.file data)) :
     ((fs.del tmp).put (addrPath cache a (Bytes.hex (cfg.H a data))) (.file data)).get
       (addrPath cache a (Bytes.hex (cfg.H a data))) = fs.get (addrPath cache a (Bytes.hex (cfg.H a data))) := by
   rw [FS.get_put_same, hpresent]
+
+open CacheRefine Refine in
+/-- **Identical data is stored once (program level).**  From a healthy cache, write some bytes under
+a key, then write THE SAME bytes again — any other key, any flavour, any clocks: after the first
+write the address of the data holds a regular file with exactly the data; after the second write it
+holds that same file, byte-identical, the whole abstract content store (address ↦ bytes) is
+unchanged by the second write, and the cache is healthy (in particular `ContentValid`). -/
+theorem rewrite_same_bytes (env1 env2 : Env) (fl1 fl2 : Flavour) (key1 key2 : Bytes) (a : Algo)
+    (data : Bytes) (fs : FS) (h : Healthy cfg cache fs) (hl : HexLen cfg)
+    (hk1 : Json.utf8Valid key1 = true) (hk2 : Json.utf8Valid key2 = true)
+    (hd : data.length ≤ Rec.u64Max) :
+    (run env1 (write cfg fl1 cache a key1 data) fs).2.1.get
+        (addrPath cache a (Bytes.hex (cfg.H a data))) = some (.file data) ∧
+    (run env2 (write cfg fl2 cache a key2 data)
+        (run env1 (write cfg fl1 cache a key1 data) fs).2.1).2.1.get
+        (addrPath cache a (Bytes.hex (cfg.H a data))) = some (.file data) ∧
+    absStore cache (run env2 (write cfg fl2 cache a key2 data)
+        (run env1 (write cfg fl1 cache a key1 data) fs).2.1).2.1 =
+      absStore cache (run env1 (write cfg fl1 cache a key1 data) fs).2.1 ∧
+    Healthy cfg cache (run env2 (write cfg fl2 cache a key2 data)
+        (run env1 (write cfg fl1 cache a key1 data) fs).2.1).2.1 := by
+  have hfl : [data].flatten = data := by simp
+  -- what one write does to the abstract store
+  have one : ∀ (env : Env) (fl : Flavour) (key : Bytes) (s : FS), Healthy cfg cache s →
+      Json.utf8Valid key = true →
+      absStore cache (run env (write cfg fl cache a key data) s).2.1 =
+        (absStore cache s).set a (Bytes.hex (cfg.H a data)) (some data) ∧
+      Healthy cfg cache (run env (write cfg fl cache a key data) s).2.1 := by
+    intro env fl key s hs hk
+    have hwf := write_wf cfg fl key a data hk hd
+    rw [write_eq_stream]
+    cases fl with
+    | sync =>
+      obtain ⟨_, h2, h3, _⟩ := run_putKeyed cfg cache env .sync key { algo := some a } [data] s hs hl hwf
+      refine ⟨?_, h3⟩
+      have := congrArg AbsCache.store h2
+      rw [putSpec_store] at this
+      simpa [absCache, hfl] using this
+    | async =>
+      obtain ⟨_, h2, h3, _⟩ := run_putKeyed cfg cache env .async key
+        { algo := some a, size := some data.length } [data] s hs hl hwf
+      refine ⟨?_, h3⟩
+      have := congrArg AbsCache.store h2
+      rw [putSpec_store] at this
+      simpa [absCache, hfl] using this
+  have file_of : ∀ s : FS, absStore cache s a (Bytes.hex (cfg.H a data)) = some data →
+      s.get (addrPath cache a (Bytes.hex (cfg.H a data))) = some (.file data) := by
+    intro s hs
+    unfold absStore at hs
+    split at hs
+    · rename_i b hb; cases hs; exact hb
+    · cases hs
+  obtain ⟨s1, h1⟩ := one env1 fl1 key1 fs h hk1
+  obtain ⟨s2, h2⟩ := one env2 fl2 key2 _ h1 hk2
+  have e1 : absStore cache (run env1 (write cfg fl1 cache a key1 data) fs).2.1 a
+      (Bytes.hex (cfg.H a data)) = some data := by rw [s1, AbsStore.set_same]
+  have e12 : absStore cache (run env2 (write cfg fl2 cache a key2 data)
+      (run env1 (write cfg fl1 cache a key1 data) fs).2.1).2.1 =
+      absStore cache (run env1 (write cfg fl1 cache a key1 data) fs).2.1 := by
+    rw [s2]
+    funext a' h'
+    by_cases hh : a' = a ∧ h' = Bytes.hex (cfg.H a data)
+    · obtain ⟨rfl, rfl⟩ := hh
+      rw [AbsStore.set_same, e1]
+    · rw [AbsStore.set_other _ _ hh]
+  exact ⟨file_of _ e1, file_of _ (by rw [e12]; exact e1), e12, h2⟩
 
 /-- **Algorithms coexist**: content paths of different algorithms are different paths, so entries
 hashed with different algorithms cannot affect each other; and an address is found under exactly
